@@ -2,6 +2,7 @@ package main
 
 import (
 	"bytes"
+	"io"
 	"iter"
 	"math/rand"
 	"strconv"
@@ -345,6 +346,9 @@ func fastaDrive(args []string) error {
 			ev.BW = ints(buf.Bytes())
 			own = append(own, buf.Bytes()...)
 			hs = append(hs, held{ev, bm})
+		}
+		if len(recs) > 0 { // one more call after the last record: whatever the last results point into gets its chance to be re-used
+			catch(func() { recs[0].MarshalText(); recs[0].Write(io.Discard) })
 		}
 		for i, h := range hs {
 			h.ev.BM = ints(h.bm)
